@@ -213,8 +213,18 @@ func (C *Contracts) loadContractFile(path string, defaultPkg string) error {
 			} else if word == "func" && strings.HasPrefix(fc.Key, "(") {
 				fc.Key = pkg + "." + fc.Key
 			}
-			if _, dup := C.Funcs[fc.Key]; dup {
-				return fmt.Errorf("%s: duplicate contract for %s", where(L.line), fc.Key)
+			if prev, dup := C.Funcs[fc.Key]; dup {
+				// a contract on the function itself (proved when its package is loaded) takes precedence over an
+				// assumed `extern` contract for the same function from a spec file
+				switch {
+				case prev.Kind == "extern" && word == "func":
+					// replace below
+				case prev.Kind == "func" && word == "extern":
+					cur, curMon, inSpec = &FuncContract{Kind: word, Pkg: pkg, Loops: map[int]*LoopSpec{}, Key: fc.Key}, nil, false // parsed and dropped
+					continue
+				default:
+					return fmt.Errorf("%s: duplicate contract for %s", where(L.line), fc.Key)
+				}
 			}
 			C.Funcs[fc.Key] = fc
 			cur, curMon, inSpec = fc, nil, false
